@@ -66,3 +66,179 @@ Proof.
     rewrite (N.mod_small (k + 1) U32) by (unfold U32; lia).
     reflexivity.
 Qed.
+
+(* ------------------------------------------------------------ no over-read *)
+
+Lemma bytes_ok_firstn n s : bytes_ok s -> bytes_ok (firstn n s).
+Proof.
+  unfold bytes_ok. revert n. induction s as [|a s IH]; intros n H.
+  - rewrite firstn_nil. constructor.
+  - destruct n; [constructor|]. cbn. inversion H; subst. constructor; auto.
+Qed.
+
+Lemma bytes_ok_skipn n s : bytes_ok s -> bytes_ok (skipn n s).
+Proof.
+  unfold bytes_ok. revert n. induction s as [|a s IH]; intros n H.
+  - rewrite skipn_nil. constructor.
+  - destruct n; [exact H|]. cbn. inversion H; subst. auto.
+Qed.
+
+Lemma bytes_ok_app a b : bytes_ok a -> bytes_ok b -> bytes_ok (a ++ b).
+Proof. unfold bytes_ok. intros. apply Forall_app. split; assumption. Qed.
+
+Lemma decode_no_overread s num want :
+  num <= N.of_nat (length s) -> bytes_ok s ->
+  exists r v, decode s num want = DRet r v.
+Proof. intros Hn Hs. rewrite decode_eq_spec by assumption. eauto. Qed.
+
+Lemma spec_decode_window s1 s2 num want :
+  firstn (N.to_nat (N.min num 6)) s1 = firstn (N.to_nat (N.min num 6)) s2 ->
+  spec_decode s1 num want = spec_decode s2 num want.
+Proof. intros H. unfold spec_decode. rewrite H. reflexivity. Qed.
+
+(* The result is a function of the first min(num,6) bytes alone: whatever lies in memory behind
+   them (inside or outside the caller's buffer) cannot influence it. *)
+Lemma decode_window s1 s2 num want :
+  num <= N.of_nat (length s1) -> num <= N.of_nat (length s2) -> bytes_ok s1 -> bytes_ok s2 ->
+  firstn (N.to_nat (N.min num 6)) s1 = firstn (N.to_nat (N.min num 6)) s2 ->
+  decode s1 num want = decode s2 num want.
+Proof.
+  intros. rewrite !decode_eq_spec by assumption.
+  rewrite (spec_decode_window s1 s2) by assumption. reflexivity.
+Qed.
+
+Lemma decode_truncate s num want :
+  num <= N.of_nat (length s) -> bytes_ok s ->
+  decode s num want = decode (firstn (N.to_nat num) s) num want.
+Proof.
+  intros Hn Hs. apply decode_window; try assumption.
+  - rewrite firstn_length. lia.
+  - apply bytes_ok_firstn. exact Hs.
+  - rewrite firstn_firstn. f_equal. lia.
+Qed.
+
+(* ------------------------------------------------------------ shape of an accepted sequence *)
+
+Lemma window_nth (s : list N) m i : (i < m)%nat ->
+  nth_error (firstn m s) i = nth_error s i.
+Proof. apply nth_error_firstn_lt. Qed.
+
+Lemma decode_inv s num want r v :
+  num <= N.of_nat (length s) -> bytes_ok s ->
+  decode s num want = DRet r v -> 0 < r ->
+  exists b, nth_error s 0 = Some b /\
+    ((0 < b < 128 /\ r = 1 /\ v = (if want then Some b else None)) \/
+     (128 <= b < 256 /\ r = nlead b + 1 /\ r <= N.min num 6 /\
+      (forall i, 1 <= i < r -> exists c, nth_error s (N.to_nat i) = Some c /\ is_cont c = true) /\
+      exists low, take_conts (N.to_nat (nlead b)) (firstn (N.to_nat (N.min num 6) - 1) (tl s)) 0 = Some low /\
+                  v = (if want then Some (low + payload b (nlead b) * 64 ^ nlead b) else None))).
+Proof.
+  intros Hn Hs E Hr. rewrite decode_eq_spec in E by assumption.
+  injection E as E1 E2. unfold spec_decode in *.
+  set (m := N.to_nat (N.min num 6)) in *.
+  destruct (firstn m s) as [|b t] eqn:EW; [cbn in E1; lia|].
+  assert (Hm : (0 < m)%nat).
+  { destruct m; [cbn in EW; discriminate|lia]. }
+  destruct s as [|b' s']; [rewrite firstn_nil in EW; discriminate|].
+  rewrite firstn_cons_pos in EW by lia. injection EW as <- Et.
+  exists b'. split; [reflexivity|].
+  destruct (b' <? 128) eqn:Eb.
+  - left. cbn [fst snd] in *. destruct (0 <? b') eqn:E0; [|lia].
+    repeat split; try lia. congruence.
+  - right.
+    assert (Hb : 128 <= b' < 256).
+    { split; [lia|]. eapply (bytes_ok_nth _ 0%nat); [exact Hs|reflexivity]. }
+    destruct (take_conts (N.to_nat (nlead b')) t 0) as [low|] eqn:ET; [|cbn in E1; lia].
+    cbn [fst snd] in *.
+    pose proof (take_conts_length _ _ _ _ ET) as Hlen.
+    assert (Hlt : (length t <= m - 1)%nat) by (subst t; rewrite firstn_length; lia).
+    repeat split; try lia.
+    + intros i Hi.
+      destruct (take_conts_all _ _ _ _ ET (N.to_nat i - 1)%nat) as [c [Ec Hc]]; [lia|].
+      exists c. split; [|exact Hc].
+      subst t. rewrite window_nth in Ec by lia.
+      replace (N.to_nat i) with (S (N.to_nat i - 1)) by lia. exact Ec.
+    + exists low. cbn [tl]. rewrite Et. split; [exact ET|congruence].
+Qed.
+
+(* never reports more bytes than are available (nor more than 6) *)
+Lemma decode_len_le_num s num want r v :
+  num <= N.of_nat (length s) -> bytes_ok s ->
+  decode s num want = DRet r v -> r <= num /\ r <= 6.
+Proof.
+  intros Hn Hs E. destruct (N.eq_dec r 0) as [->|Hr]; [lia|].
+  destruct (decode_inv s num want r v Hn Hs E ltac:(lia)) as [b [Eb [H|H]]].
+  - destruct (N.eq_dec num 0) as [->|Hz]; [|lia].
+    unfold decode, a_utf_decode in E. cbn in E. injection E as E _. lia.
+  - lia.
+Qed.
+
+(* a multi-byte sequence is accepted only if every trailing byte is a continuation byte 10XXXXXX,
+   and the lead byte announces exactly that many *)
+Lemma decode_accepts_only_continuations s num want r v :
+  num <= N.of_nat (length s) -> bytes_ok s ->
+  decode s num want = DRet r v -> 2 <= r ->
+  (exists b, nth_error s 0 = Some b /\ 192 <= b < 254 /\ nlead b + 1 = r) /\
+  (forall i, 1 <= i < r -> exists c, nth_error s (N.to_nat i) = Some c /\ 128 <= c < 192).
+Proof.
+  intros Hn Hs E Hr.
+  destruct (decode_inv s num want r v Hn Hs E ltac:(lia)) as [b [Eb [H|H]]]; [lia|].
+  destruct H as (Hb & Hrk & Hrm & Hall & _).
+  split.
+  - exists b. split; [exact Eb|].
+    destruct (nlead_cases b Hb) as [[E1 R]|[[E1 R]|[[E1 R]|[[E1 R]|[[E1 R]|[[E1 R]|[[E1 R]|[E1 R]]]]]]]]; lia.
+  - intros i Hi. destruct (Hall i Hi) as [c [Ec Hc]]. exists c. split; [exact Ec|].
+    unfold is_cont in Hc. lia.
+Qed.
+
+(* the two branches (val wanted / val == NULL) report the same length *)
+Lemma decode_want_irrelevant s num r v :
+  num <= N.of_nat (length s) -> bytes_ok s ->
+  decode s num true = DRet r v -> decode s num false = DRet r None.
+Proof.
+  intros Hn Hs E. rewrite decode_eq_spec in * by assumption.
+  injection E as E1 E2. unfold spec_decode in *.
+  destruct (firstn _ s) as [|b t]; [cbn in *; congruence|].
+  destruct (b <? 128); [cbn in *; congruence|].
+  destruct (take_conts _ t 0); cbn in *; congruence.
+Qed.
+
+(* lead bytes 0xFE / 0xFF (they would announce 6 / 7 continuation bytes) are always rejected:
+   this is what the min(num,6) clamp achieves *)
+Lemma decode_FE_FF_rejected s num want b :
+  num <= N.of_nat (length s) -> bytes_ok s ->
+  nth_error s 0 = Some b -> 254 <= b ->
+  decode s num want = DRet 0 None.
+Proof.
+  intros Hn Hs Eb Hb.
+  destruct (decode_no_overread s num want Hn Hs) as [r [v E]].
+  destruct (N.eq_dec r 0) as [->|Hr].
+  - rewrite E. f_equal.
+    rewrite decode_eq_spec in E by assumption. injection E as E1 E2. unfold spec_decode in *.
+    destruct (firstn _ s) as [|b' t] eqn:EW; [cbn in *; congruence|].
+    destruct s as [|b0 s']; [discriminate|]. cbn in Eb. injection Eb as ->.
+    destruct (N.to_nat (N.min num 6)) eqn:Em; [discriminate|]. cbn in EW. injection EW as <- _.
+    replace (b <? 128) with false in * by lia.
+    destruct (take_conts _ t 0); cbn in *; [lia|congruence].
+  - destruct (decode_inv s num want r v Hn Hs E ltac:(lia)) as [b' [Eb' [H|H]]];
+      rewrite Eb in Eb'; injection Eb' as <-; [lia|].
+    destruct H as (Hb' & Hrk & Hrm & _).
+    destruct (nlead_cases b Hb') as [[E1 R]|[[E1 R]|[[E1 R]|[[E1 R]|[[E1 R]|[[E1 R]|[[E1 R]|[E1 R]]]]]]]]; lia.
+Qed.
+
+(* a stray continuation byte in lead position is taken as a one-byte character with its low 6
+   bits (an acceptance the property statement does not exclude: it is not a multi-byte sequence) *)
+Lemma decode_stray_continuation s num b :
+  1 <= num <= N.of_nat (length s) -> bytes_ok s ->
+  nth_error s 0 = Some b -> 128 <= b < 192 ->
+  decode s num true = DRet 1 (Some (b mod 64)).
+Proof.
+  intros Hn Hs Eb Hb. rewrite decode_eq_spec by (assumption || lia). unfold spec_decode.
+  destruct s as [|b0 s']; [discriminate|]. cbn in Eb. injection Eb as ->.
+  rewrite firstn_cons_pos by lia.
+  replace (b <? 128) with false by lia.
+  assert (nlead b = 0) as ->.
+  { unfold nlead. replace (b <? 0xC0) with true by lia. reflexivity. }
+  cbn [N.to_nat take_conts fst snd]. unfold payload.
+  change (2 ^ (6 - 0)) with 64. change (64 ^ 0) with 1. f_equal. f_equal. lia.
+Qed.
